@@ -3,11 +3,14 @@ from fractions import Fraction
 from pcv import core, capio, sccgen
 
 
-def impl_read(text, offset=0, reader=None):
-    import pycaption
+def impl_read(text, offset=0, reader=None, lang=None):
+    import pycaption, zlib
     from pycaption.exceptions import CaptionLineLengthError, CaptionReadTimingError, CaptionReadNoCaptions
+    # the language code under which the captions are filed must not matter: every third document is read under another one
+    if lang is None:
+        lang = ["en-US", "fr-FR", "und"][zlib.crc32(text.encode("utf-8")) % 3] if zlib.crc32(text.encode("utf-8")) % 3 else "en-US"
     try:
-        cs = (reader or pycaption.SCCReader()).read(text, offset=offset)
+        cs = (reader or pycaption.SCCReader()).read(text, lang=lang, offset=offset)
     except CaptionLineLengthError as e:
         return ("err", "lineLength", e.args[0])
     except CaptionReadTimingError as e:
@@ -16,7 +19,7 @@ def impl_read(text, offset=0, reader=None):
         return ("err", "noCaptions", "")
     except Exception as e:
         return ("err", "pyError", repr(e))
-    return ("ok", [sccgen.obs_caption(c) for c in cs.get_captions("en-US")])
+    return ("ok", [sccgen.obs_caption(c) for c in cs.get_captions(lang)])
 
 
 def dec_pos(t):
